@@ -95,7 +95,7 @@ def new_map(kind, vshape, present=None, cols=None, tag="m", ex=None):
 
 
 def key_term(ex, st, v):
-    if isinstance(v, VRef):
+    while isinstance(v, VRef):
         v = st.load(v)
     if isinstance(v, VMapSlot):
         v = ex.models.slot_load(st, v)
@@ -660,8 +660,14 @@ def m_into_iter_any(ex, st, fr, c, a, d, r):
     if isinstance(v, VVec):
         return VIter([(None, e) for e in v.elems])
     if isinstance(v, VMap):
-        cell = VRef(st.alloc(v))
-        return m_map_iter(ex, st, fr, "HashMap::into_iter", [cell], d, r)
+        # consuming iteration: (K, V) pairs BY VALUE, in key order
+        items = []
+        for u in map_domain(ex, v):
+            ksym = VSym(u, v.ksort) if v.ksort in ("K", "H") else VInt(u, "u64")
+            val = shape_select(v, u)
+            item = ksym if v.vshape in (("int", "u8"), None) else VStruct("tuple", [ksym, val])
+            items.append((z3.Select(v.present, u), item))
+        return VIter(items, "map")
     raise Unsupported(f"into_iter on {v}")
 
 
